@@ -16,7 +16,7 @@ CLAIMS = {
          "callers discharge callee preconditions at static call sites. Structural obligations: the static call graph has no recursion, every loop is a range loop (or carries a decreases clause), there are no goroutines, and os.WriteFile in the code generator is the only file-mutating call. "
          "Preconditions that remain are of three kinds, all listed in the contracts: injected collaborators are non-nil (composition root), resolvers are asked only about arguments they support (proved at ArgResolver), and a printed line fits the row / EndIndent follows Indent (proved at StepVerboseSwitchable)."),
    note=("Not proved: that the composition root (internal/gontainer, reflection-driven runtime) wires non-nil collaborators and that validation precedes the compile steps (Compiler.Compile is proved to stop at the first failing step; the step order is wiring), termination and panic-freedom of external libraries (yaml.v3, cobra, gonum cycle enumeration, goimports, text/template), stdout write failures (A13). "
-         "Trusted (bodies not verified): regex.Match, types.IsPrimitive, template.createDefaultFunctions, cmd.buildRunner, runner.DecorateStepVerboseSwitchable, input.init#2. Functions not under contract have their callees' effects havoc'ed. " + TB),
+         "Trusted (bodies not verified): regex.Match, types.IsPrimitive, template.createDefaultFunctions, template.(tpl).exec, runner.DecorateStepVerboseSwitchable, input.init#2. cmd.buildRunner is verified against assumed contracts of the DI runtime and of the generated container (contracts/assumed/container.spec). Functions not under contract have their callees' effects havoc'ed. A structural obligation per package guards the value semantics of slices (no element store through, and no append to a re-slice of, a slice received by value). " + TB),
    design="DESIGN.md section 4 C12"),
  "C05": dict(
    technique="contract-based deductive verification: contracts on the real scope conversion and shared-on-contextual validator over go/ssa with a ghost edge relation for the library graph, SMT",
@@ -37,7 +37,7 @@ CLAIMS = {
    text=("Proof that the compiled Output is a faithful, order-preserving image of each declared service: ArgResolver returns what the first supporting strategy returns and only asks strategies that support the argument; "
          "each argument form is classified and compiled as documented (non-string primitive keeps its value, @name depends on exactly that service, !tagged t on exactly that tag, $gontainer / !value have no dependencies, other strings are patterns); "
          "resolveArgs / serviceCalls / serviceTags keep length and order, serviceFields yields one field per key in strictly increasing name order, processService maps a todo service to a bare placeholder and any other service attribute by attribute, "
-         "StepCompileServices.Process yields one service per declaration sorted by name with the declared scope."),
+         "StepCompileServices.Process yields one service per declaration sorted by name with the declared scope; string arguments go through the token pipeline of C03 (one token per chunk, several tokens concatenated in order); every constructor stores each collaborator in its own field; Builder.Build renders exactly the compiled Output it was given (body then head, both from the same data)."),
    note=(HALF + "Partly covered: CompileServiceValue / serviceConstructor / serviceType keep the pointer prefix and emit local and current-package forms as written; the qualified form alias(import).symbol is not stated (word equations over regex captures time out), exporter.MustExport's Go literal. Resolving is treated as a function of the argument for one compilation (assumed contracts of the injected interfaces). " + TB),
    design="DESIGN.md section 4 C02"),
  "C03": dict(
@@ -50,8 +50,8 @@ CLAIMS = {
  "C04": dict(
    technique="contract-based deductive verification: order/length-preservation contracts on the real tag and decorator compilation and merge functions over go/ssa, SMT",
    text=("Proof that tags reach the Output with their names, priorities and order (serviceTags), that decorators are compiled one-to-one in declaration order with their tag and resolved arguments (StepCompileDecorators), "
-         "that merging appends tags and decorators in file order (C09 contracts), that !tagged t depends on exactly tag t, and that duplicate tags on one service are rejected."),
-   note=(HALF + "Priority-descending/name-ascending ordering of GetTaggedBy and the decorator call protocol live in the runtime library (assumed). Tag.UnmarshalYAML is under a safety contract only. " + TB),
+         "that merging appends tags and decorators in file order (C09 contracts), that !tagged t depends on exactly tag t, that duplicate tags on one service are rejected, that Tag.UnmarshalYAML accepts exactly a plain string (priority 0) or a mapping with a string name and an optional int priority and stores them, that decorator arguments are resolved by the same first-supporting-strategy chain as service arguments, and that Builder.Build hands the templates the Output unchanged (decorators in declaration order)."),
+   note=(HALF + "Priority-descending/name-ascending ordering of GetTaggedBy and the decorator call protocol live in the runtime library (assumed). The YAML callback handed to UnmarshalYAML is modelled as a function of the callback and the target type (assumed of yaml.v3). " + TB),
    design="DESIGN.md section 4 C04"),
  "C15": dict(
    technique="contract-based deductive verification: contracts on the real todo handling (validation exemption, placeholder compilation, declared-name sets, built-in function table) over go/ssa, SMT",
@@ -65,15 +65,15 @@ CLAIMS = {
          "collect-then-sort; or a contract proved to determine the result. On top: maps.Keys is proved to return each key once in strictly increasing order, maps.Iterate is proved to call its callback once per key in that order, "
          "imports.Imports() is strictly increasing in the path, decorateImport's contract is proved to admit one result, mergeMap is specified point-wise, the scope keyword tables are fixed by a proved global invariant. "
          "Structural obligations on the call graph: no reads of environment, clock, working directory or randomness, no goroutines, package-level variables written only in init."),
-   note=("Uniqueness of a strictly increasing enumeration of a set (M2) is a stated meta-lemma, not machine-checked. Assumed: yaml.v3 decoding into maps loses key order, goimports/gofmt/gonum/fatih-color are deterministic; the alias counter of the imports table advances in the order of a sorted traversal only as far as the compile steps are under contract (C02/C03 not yet claimed). " + TB),
+   note=("Assumed: yaml.v3 decoding into maps loses key order, goimports/gofmt/gonum/fatih-color are deterministic; M2 is proved in package maps (sorted_enumeration_* lemmas). " + TB),
    design="DESIGN.md section 4 C08"),
  "C10": dict(
    technique="contract-based deductive verification: contracts over a ghost trace of effectful calls on the real runner steps (go/ssa), SMT; structural single-writer obligation on the SSA call graph",
    text=("Proof over the step algebra, for all step lists and all step behaviours: Runner.Run runs the steps in order up to and including the first failing one and returns exactly that step's error, nil iff all ran and returned nil; "
          "StepAmalgamated runs every sub-step once and accepts iff all accept; StepVerboseSwitchable runs its parent exactly once when active (returning its verdict unchanged, Indent/EndIndent balanced) and not at all when inactive; "
          "StepCodeGenerator calls Build exactly once, calls os.WriteFile at most once, only after a successful Build, with filepath.Clean(-o) and exactly Build's string, and succeeds iff the write succeeded; "
-         "the END line of a failing step reports exactly len(grouperror.Collection(err)) errors; findFiles returns cleaned paths in lexical order; the RunE closure of NewBuildCmd hands its flags to the composition root unchanged, gives it io.Discard as writer under --quiet, and prints its own error list only to that same writer. Structural obligation: that os.WriteFile call is the only file-mutating call in the repository, so on any failure before it the -o path is untouched."),
-   note=("Not covered (evaluated/assumed, not proved): the composition root (which steps are wired in which order, that the generator is last), that cobra maps a non-nil error to exit status 1, the numbering text of the error list (fatih/color calls are assumed effects recorded with their writer), os.WriteFile's own atomicity (A13). "
+         "the END line of a failing step reports exactly len(grouperror.Collection(err)) errors; findFiles returns cleaned paths in lexical order; the RunE closure of NewBuildCmd hands its flags to the composition root unchanged, gives it io.Discard as writer under --quiet, returns the failing step's error unchanged (nil iff every step succeeded), prints nothing itself on success and on failure prints its error list only to that same writer with exactly one numbered line per collected error; buildRunner hands each payload field to the DI container under its own parameter name; Builder.Build returns the formatter's result for head+body and reports a failing template or formatter; CodeFormatter.Format yields no text on a syntax error. Structural obligation: that os.WriteFile call is the only file-mutating call in the repository, so on any failure before it the -o path is untouched."),
+   note=("Not covered (evaluated/assumed, not proved): what the generated container (internal/gontainer) wires from the parameters buildRunner sets (which steps in which order, that the generator is last: evaluated by the composition test for all four flag combinations), the numbering text of the error list (fatih/color calls are assumed effects recorded with their writer), os.WriteFile's own atomicity (A13). main is proved to exit non-zero exactly when the command returns an error. "
          "Each function's contract speaks about its own direct effectful calls; the end-to-end statement is the composition of these contracts given the wiring. " + TB),
    design="DESIGN.md section 4 C10"),
  "C16": dict(
@@ -82,7 +82,7 @@ CLAIMS = {
          "that StepAmalgamated runs all rule steps regardless of each other's verdict and accepts iff every one accepts, that StepOutputValidationRule returns exactly its rule's verdict on an unmodified Output, "
          "that the RunE closure of NewBuildCmd passes paramsExistActive = !--ignore-missing-params and servicesExistActive = !--ignore-missing-services (and nothing else, e.g. not --stub) to the composition root, "
          "and (from C06, C05, C07) that the rules have exact accept-iff contracts that do not look at each other. Hence deactivating a rule removes exactly that rule's diagnostics and nothing else."),
-   note=("Not covered (evaluated/assumed, not proved): that the payload fields are bound to the Active flags of exactly those two rule steps inside buildRunner (generated composition root in internal/gontainer: evaluated for all four flag combinations), which Go variable a cobra flag name is bound to, and byte-identity of the generated file. " + TB),
+   note=("buildRunner is proved to call Active on the step returned by MustGetStepValidateParamsExist with paramsExistActive, on the one returned by MustGetStepValidateServicesExist with servicesExistActive, and on nothing else; each command-line flag is proved to be registered on its own variable. Not covered (assumed, evaluated for all four flag combinations): that those two generated getters return the steps wrapping exactly the missing-parameters / missing-services rules, and byte-identity of the generated file. " + TB),
    design="DESIGN.md section 4 C16"),
  "C14": dict(
    technique="contract-based deductive verification: contracts and a data-structure invariant on the real imports table over go/ssa, string/regex SMT",
@@ -90,7 +90,7 @@ CLAIMS = {
          "that Alias keeps the import-table invariant (every used path has the local name i<hex(c)>_<sanitised last element> of a distinct counter value, hence the same package always gets the same name and different packages never share one), "
          "that RegisterPrefixAlias rejects exactly duplicates, that Imports() lists every used package once in strictly increasing path order, that SanitizeImport maps quoted/unquoted/'.' forms as documented, "
          "that StepCompileMeta registers every alias of meta.imports before any function and that functions resolve their import when a token is created (never at registration), that local and current-package (\".\") forms of constructor / type / decorator references are emitted unqualified and the pointer prefix is kept, "
-         "and that the alias and import grammars equal their documented languages."),
+         "that CodeFormatter.Format always passes the gofmt'ed source through the import-pruning pass (in normal and in stub mode) and that Builder.Build renders the body before the head (the head lists what the body imported), and that the alias and import grammars equal their documented languages."),
    note=("Build-time half. Not covered: the qualified forms alias(import).symbol of references (word equations over regex captures: the obligations time out and were dropped), template-internal imports (an alias equal to a standard package name such as fmt still captures the template's own import: recorded in DESIGN.md section 5 as not expressible by the current contracts), goimports pruning, linking. "
          "hex/sanitise/last-segment are abstract functions with an assumed injectivity axiom. " + TB),
    design="DESIGN.md section 4 C14"),
@@ -99,8 +99,8 @@ CLAIMS = {
    text=("Proof in two layers. (1) For each of the 31 grammar regular expressions compiled anywhere in /repo, the language of the constant the compiler sees (wrapped as MustCompileAz wraps it) "
          "equals an independently written specification language (intersections/complements of simple conditions composed as the docs compose them), for all strings. "
          "(2) Every validator of package input (meta, params, services incl. creation-method rules, getters, calls, fields, duplicate tags, decorators, Validator.Validate) returns nil exactly when the documented conjunction holds; "
-         "todo services are checked for their name only; the loop over the nine service validators is proved to run each of them."),
-   note=("Not covered: diagnostics text and the exact number of reported errors (message texts and counts are opaque), the YAML parser in front of the UnmarshalYAML methods, and the wiring of validators into NewDefaultValidator. "
+         "todo services are checked for their name only; the loop over the nine service validators is proved to run each of them. (3) The four UnmarshalYAML methods accept exactly the documented node shapes (scope keyword; version string; tag string or name/priority mapping; call of one to three elements string / sequence / bool, an explicit null not counting as omitted), and a malformed special argument (@..., !value ..., !tagged ...) is an error of the first supporting resolver, never silently re-read as a pattern."),
+   note=("Not covered: diagnostics text (message texts are opaque; that every violation is reported is the structural no-early-exit obligation plus the accept-iff contracts; that the final list has one line per collected error is proved for the build command), the YAML parser in front of the UnmarshalYAML methods (their decode callback is assumed to be a function of the callback and the target type). "
          "types.IsPrimitive (reflect) has a trusted contract; reservedGetters (reflect, A10) is an assumed global invariant. Duplicate getters and the getter 'Container' used to be accepted (genuine defect D3, repaired by fix commit cee442c; now proved rejected). " + TB),
    design="DESIGN.md section 4 C11"),
  "C13": dict(
@@ -114,15 +114,15 @@ CLAIMS = {
    technique="contract-based deductive verification: VCs over go/ssa of the real version gate against assumed axioms of x/mod/semver, SMT",
    text=("Proof that ValidateVersion implements the truth table of the property for every (B, V): skipped iff no version is declared or the build is not semver; "
          "for build major 0 accepted iff V has major 0 and the same minor; for major >= 1 iff same major and minor not greater; patch, prerelease and build never appear. "
-         "NewVersionValidator and Version.UnmarshalYAML are under contract too (the latter establishes the type invariant the gate requires)."),
-   note=("semver.IsValid/Major/MajorMinor/Compare are assumed contracts over an abstract parser (svValid, svMaj, svMin; A12, read off semver.go). main.buildVersion$1 (strips a leading v from the linker-provided version) is proved; the RunE closure is proved to pass version and buildInfo unswapped; that buildRunner feeds p.version (not the build info) to the validator is evaluated by the composition test (four configuration versions against build 1.2.3), not proved. " + TB),
+         "NewVersionValidator and Version.UnmarshalYAML are under contract too: a version is accepted iff it is a YAML string that is a semantic version once v is put in front (anything else, e.g. a number, is a parse error for every build), and is stored as written; Merge keeps a declared version (later file wins) whatever else the files contain; buildRunner hands version and build info to the container under their own names."),
+   note=("semver.IsValid/Major/MajorMinor/Compare are assumed contracts over an abstract parser (svValid, svMaj, svMin; A12, read off semver.go). main.buildVersion$1 (strips a leading v from the linker-provided version) is proved; the RunE closure is proved to pass version and buildInfo unswapped; that the generated container feeds its %version% parameter to the version validator is evaluated by the composition test (four configuration versions against build 1.2.3), not proved. " + TB),
    design="DESIGN.md section 4 C18"),
  "C06": dict(
    technique="contract-based deductive verification: WP/VC generation over go/ssa of the real existence validators, SMT (z3/cvc5)",
    text=("Proof, for all Output values of any size, that ValidateParamsExist / ValidateServicesExist return nil exactly when every name in every "
          "DependsOnParams / DependsOnServices list reachable from a parameter, a service (arguments, calls, fields via AllArgs) or a decorator is in the set of declared names "
          "(names only, so todo entries count as declared). Both directions are separate obligations; AllArgs is proved sound and positionally complete."),
-   note=("Build-time half: the custody chain from YAML text to the DependsOn* lists (resolvers, token factories) is claimed under C02/C03 when built; message texts are opaque. "
+   note=("The custody chain from YAML text to the DependsOn* lists (resolver chain, token factories, compile steps) is under contract and tagged with this property; the validators read lists no other function has rewritten (structural obligation: no function of package output writes through a slice it received by value). Message texts are opaque. "
          "grouperror.Prefix/Join have assumed contracts (nil iff all nil). " + TB),
    design="DESIGN.md section 4 C06"),
  "C09": dict(
@@ -130,7 +130,7 @@ CLAIMS = {
    text=("Proof, for all inputs and unbounded sizes, that every function of input/merge.go and slices.Copy meets a contract transcribed from the "
          "property (later scalar wins, maps united key-wise with later value winning, non-empty later arguments replace, calls/tags/decorators appended in order), "
          "plus machine-checked lemmas over those contracts: Merge is associative up to extensional equivalence and the empty input is a left and right identity. "
-         "Split invariance is the corollary (any split is a re-bracketing of the same fold). StepReadConfig.Run is proved to produce exactly the left fold of Merge over the readable, parsable files taken pattern by pattern in -i order and, within a pattern, in findFiles order (cleaned, sorted); NewBuildCmd registers -i as a string *array* flag (one pattern per occurrence, no comma splitting)."),
+         "Split invariance is the corollary (any split is a re-bracketing of the same fold). StepReadConfig.Run is proved to produce exactly the left fold of Merge over the readable, parsable files taken pattern by pattern in -i order and, within a pattern, in findFiles order (cleaned, sorted); NewBuildCmd registers -i as a string *array* flag (one pattern per occurrence, no comma splitting) and buildRunner hands the patterns to the container as one list in flag order (not sorted, not de-duplicated)."),
    note=("Build-time half only. Assumed: os.ReadFile / filepath.Glob are functions of their argument for the duration of a run, yaml.Unmarshal is a function of its bytes and target type; the HO-contract of maps.Iterate at call sites; pflag/cobra contracts. mergeFiles/mergePatterns are definitional recursions (axioms). " + TB),
    design="DESIGN.md section 4 C09"),
 }
